@@ -269,9 +269,29 @@ fn gib_unit_case(seed: u64, st: &mut Stats) {
     if c4 != 0 || c5 != 0 || !info_has(&l5, &["fixed", "size"], "3221225472") { st.violation("C11", "bita info does not report the fixed chunk size 3 GiB (3221225472 bytes) that was asked for", line); }
 }
 
+/// more unique chunks than 16 bits can count (indexes of the rebuild order beyond 65535)
+fn many_chunks_case(seed: u64, st: &mut Stats) {
+    let mut rng = Rng::new(seed ^ 0x9d);
+    let s = Scn::new("many", 0);
+    let src: Vec<u8> = (0..16 * 70_000 + 5).map(|_| rng.next() as u8).collect();
+    s.write("src.bin", &src);
+    st.evaluations += 1;
+    st.oracle_checks += 2;
+    st.count("clirt/70001-unique-chunks");
+    let line = "clirt many-chunks --fixed-size 16 --compression none, 1120005 random bytes";
+    let (c1, l1) = s.bita(&["compress", "-i", "src.bin", "--fixed-size", "16", "--compression", "none", "--hash-length", "8", "m.cba"], None, &[]);
+    if c1 != 0 { st.violation("C11", &format!("compress into 70001 chunks fails: {}", l1.lines().last().unwrap_or("")), line); return; }
+    let archive = s.read("m.cba").unwrap_or_default();
+    let c = CompressCase { cfg: Cfg { algo: 'F', bits: 0, min: 0, max: 16, win: 0 }, hashlen: 8, comp: None, meta: std::collections::BTreeMap::new(), src: src.clone() };
+    if let Err(what) = c11_oracle(&c, &archive) { st.violation("C11", &format!("CLI archive with 70001 unique chunks: {}", what), line); }
+    let (c3, _) = s.bita(&["clone", "m.cba", "m.out"], None, &[]);
+    if c3 != 0 || s.read("m.out").as_deref() != Some(&src[..]) { st.violation("C01", "an archive of 70001 unique chunks is not cloned back to its source", line); }
+}
+
 pub fn suite_clirt(dir: &str, seed: u64, thorough: bool, st: &mut Stats) {
     big_header_case(seed, st);
     gib_unit_case(seed, st);
+    many_chunks_case(seed, st);
     let mut out = SuiteOut::new(dir, "clirt");
     let n = if thorough { 400 } else { 48 };
     let nbig = if thorough { 4 } else { 1 };
@@ -760,6 +780,8 @@ pub fn suite_clirefuse(dir: &str, seed: u64, _thorough: bool, st: &mut Stats) {
         let extra: Vec<&String> = after.iter().filter(|f| !before.contains(f) && f.as_str() != "out.bin").collect();
         if refused {
             if code == 0 { st.violation("C14", &format!("{}: operation should be refused but exit status is 0", line), &line); }
+            // (an archive that is not what the user pinned, or not an archive at all, was cloned)
+            if code == 0 && refuse_archive { st.violation("C04", &format!("{}: the clone proceeds although the archive is invalid or its header checksum is not the expected one", line), &line); }
             if exists && state != "unchanged" { st.violation("C14", &format!("{}: refused but the existing output is {}", line, state), &line); }
             if !exists && refuse_archive && state != "absent" { st.violation("C14", &format!("{}: refused for the archive/header but an output file was created", line), &line); }
         } else if code != 0 {
